@@ -17,7 +17,7 @@ RULE = ('sources (G-doc documents with metadata, corpus files, the statefulness 
         'Beamer, Memoir, OPML the 9 library variants {string,DString,engine} x {convert, convert_to_data, convert_to_file} and (sampled) the '
         'CLI on stdout, with -o and with -b give identical bytes; for FODT/EPUB/ODT/TextBundle/ITMZ the to_data, to_file variants and the CLI '
         'agree (archives member by member under the UUID/date mask); has_metadata/keys/value/update agree across the three families; every '
-        'variant that returns something returns non-NULL and every to_file variant leaves a non-empty file. Non-trivial: >=6 variants compared '
+        'variant that returns something returns non-NULL and every to_file variant leaves a non-empty file. Batch mode is also run with two files in different folders, named relative to the working directory, incl. TextBundle folders. Non-trivial: >=6 variants compared '
         'and output longer than the empty-document output; distinct by (source, fmt, ext, lang).')
 ASSUMPTIONS = ['CLI legs use sources without transclusion markers or CriticMarkup; for sources with MMD Header / MMD Footer metadata (which main.c splices into the text) the three CLI routes stdout, -o and -b are compared with one another instead of with the library',
                'FORMAT_MMD and FORMAT_HTML_WITH_ASSETS are not in the statement\'s lists and are not compared',
